@@ -65,10 +65,14 @@ def run(ck: vlib.Check):
         write_file(p, w)
         files.append((f, w, str(p)))
     calls, meta = [], []   # meta: dict(kind, file index(es), mask, n_blocks, pb, mw)
+    abi, alog = G.build_abi(NATIVE_DIR)     # every third call decodes with the working tree's C++ through ctypes
+    if abi is None:
+        ck.tie_broken("native-build", "rawabi.cc", alog)
 
     def add(kind, fi, mask=63, nb=-1, pb=None, mw=None, delay=False, guard=False, seq=None, concat=None):
         c = {"id": len(calls), "paths": [files[k][2] for k in (concat if concat is not None else [fi])], "n_blocks": nb, "pb": pb,
-             "subs": subs_of(mask), "max_workers": mw, "delay_seed": rng.randrange(1 << 30) if delay else None, "guard": guard}
+             "subs": subs_of(mask), "max_workers": mw, "delay_seed": rng.randrange(1 << 30) if delay else None, "guard": guard,
+             "native_so": str(abi) if (abi is not None and len(calls) % 3 == 1) else None}
         if seq is not None:
             c["seq"] = seq
         if concat is not None:
@@ -172,6 +176,7 @@ def run(ck: vlib.Check):
                 permuted += 1
     ck.cov["outcomes"] = dict(sorted(outcomes.items()))
     ck.cov["thread_pools_with_permuted_completion_order"] = permuted
+    ck.cov["calls_through_working_tree_cpp_via_ctypes"] = sum(1 for c in calls if c.get("native_so"))
     # ---- the property's clauses, directly on the implementation's answers
     full = {}
     for c, m, r in zip(calls, meta, impl):
@@ -199,6 +204,8 @@ def run(ck: vlib.Check):
             key = "C04:n_blocks>N:never-terminates" if (m["nb"] is not None and m["nb"] > N) else f"C04:{m['kind']}:never-terminates"
             viol(key, f"open_raw(file with {N} blocks, {len(w)} words).arrays({desc}) did not return within the wall-clock guard "
                       f"({r.get('exc')}); the model answers OutOfFuel for every fuel (theorem C04_first_n_beyond_never_terminates)", c, fi)
+            continue
+        if r["outcome"] == "skipped":      # harness artefact: an earlier call of the same sacrificial process hung
             continue
         if r["outcome"] != "ok":
             viol(f"C04:{m['kind']}:{r['outcome']}", f"arrays({desc}) on a well-formed file: {r['outcome']} {r.get('exc')}", c, fi)
